@@ -40,9 +40,7 @@ type reinitRun struct {
 }
 
 func (r *reinitRun) mon(s string) {
-	if len(r.st.Monitors) < 80 {
-		r.st.Monitors = append(r.st.Monitors, s)
-	}
+	addMonitor(&r.st.Monitors, s)
 }
 
 func (r *reinitRun) note(s string) {
